@@ -13,49 +13,94 @@
     - [wf_document src d]: the leaves of [d] are what [src] has at their spans, and the lists the
       parser never leaves empty are not empty (what [Document::parse] guarantees of its own result). *)
 From WacV Require Import Str Token Lexer LexTables LexImpl Semver Ast Parser Grammar ParserProofs.
-From WacV Require Import Printer PrintSpec PrinterText PrinterProofs PrinterWitness.
+From WacV Require Import Printer PrintSpec PrinterText PrinterProofs PrinterWf PrinterLex PrinterAll PrinterWitness.
+
+(* ------------------------------------------------------------------ what the parser guarantees *)
+
+(** [parse_wf]: the tree [Document::parse] (model) returns is well-formed with respect to its source:
+    every identifier, string, package name and package path is the text at its span (so that the
+    printer's [source(span)] copies are these texts), and no variant/record/flags/enum/tuple is empty. *)
+Theorem parse_wf src d r : parse_document impl_flags impl_cfg src = POk d r -> wf_document src d.
+Proof. exact (parse_wf_impl src d r). Qed.
+Print Assumptions parse_wf.
+
+(** [print_no_panic]: the (repaired) printer does not panic on a parsed document (every
+    [source(span)] slice is inside the text and on character boundaries). *)
+Theorem print_no_panic src d r :
+  parse_document impl_flags impl_cfg src = POk d r -> exists ps, print_pieces repaired src d = Some ps.
+Proof. intros H. apply print_no_panic_wf. exact (parse_wf_impl src d r H). Qed.
+Print Assumptions print_no_panic.
 
 (* ------------------------------------------------------------------ token level *)
 
 (** [print_tokens_roundtrip] (all node classes: value types, function types, type declarations,
     resources, interfaces, worlds, expressions with all four argument forms, statements, package
-    directive with target, documents). For a well-formed tree on which the printer does not panic,
-    the token stream of the printed pieces is parsed by the C12 parser model (any environment with
-    the implementation's flags and fuel above the number of tokens) to a tree [d'] with
-    [sn d' = sn d]; and printing [d'] out of the printed text gives the same pieces again. *)
-Theorem print_tokens_roundtrip src d ps e :
-  wf_document src d -> print_pieces repaired src d = Some ps ->
-  dv e = impl_flags -> (length (items_of_pieces ps) < fuel e)%nat ->
-  exists d', parse_document_items e (items_of_pieces ps) = POk d' [] /\ sn d' = sn d /\
-             print_pieces repaired (text_of ps) d' = Some ps.
-Proof. exact (print_tokens_roundtrip_parser src d ps e). Qed.
+    directive with target, documents). For every document the parser accepts, the printer writes
+    pieces [ps] whose token stream is parsed by the C12 parser model (any environment with the
+    implementation's flags and fuel above the number of tokens) to a tree [d'] with [sn d' = sn d];
+    and ([print_idempotent], token level) printing [d'] out of the printed text gives the same
+    pieces again. *)
+Theorem print_tokens_roundtrip src d r :
+  parse_document impl_flags impl_cfg src = POk d r ->
+  exists ps, print_pieces repaired src d = Some ps /\
+    forall e, dv e = impl_flags -> (length (items_of_pieces ps) < fuel e)%nat ->
+    exists d', parse_document_items e (items_of_pieces ps) = POk d' [] /\ sn d' = sn d /\
+               print_pieces repaired (text_of ps) d' = Some ps.
+Proof.
+  intros H. pose proof (parse_wf_impl src d r H) as Hwf. destruct (print_no_panic_wf src d Hwf) as (ps & Hp).
+  exists ps. split; [exact Hp|]. intros e He Hf. exact (print_tokens_roundtrip_parser src d ps e Hwf Hp He Hf).
+Qed.
 Print Assumptions print_tokens_roundtrip.
 
 (** The same against the grammar of spec/Grammar.v: the printed tokens derive [d']. *)
-Theorem print_tokens_derivable src d ps :
-  wf_document src d -> print_pieces repaired src d = Some ps ->
-  exists d', g_document impl_flags (items_of_pieces ps) [] d' /\ sn d' = sn d /\
-             print_pieces repaired (text_of ps) d' = Some ps.
-Proof. exact (print_tokens_roundtrip_derivation src d ps). Qed.
+Theorem print_tokens_derivable src d r :
+  parse_document impl_flags impl_cfg src = POk d r ->
+  exists ps d', print_pieces repaired src d = Some ps /\
+                g_document impl_flags (items_of_pieces ps) [] d' /\ sn d' = sn d /\
+                print_pieces repaired (text_of ps) d' = Some ps.
+Proof.
+  intros H. pose proof (parse_wf_impl src d r H) as Hwf. destruct (print_no_panic_wf src d Hwf) as (ps & Hp).
+  destruct (print_tokens_roundtrip_derivation src d ps Hwf Hp) as (d' & H1 & H2 & H3). eauto 6.
+Qed.
 Print Assumptions print_tokens_derivable.
+
+(* ------------------------------------------------------------------ lexing the printed text *)
+
+(** [render_lex_partial]. FULL statement (DESIGN): for every parsed [d] with printed pieces [ps],
+    [lex impl_cfg (text_of ps) = items_of_pieces ps] -- the lexer returns exactly the tokens the
+    printer meant, with the spans and doc comments [items_of_pieces] computes.
+    PROVED: the layout half. The blanks, line feeds and doc lines the printer writes are what the
+    lexer's gap skipping passes over; the doc comments it collects are the ones attached to the next
+    token; every token is reached at the computed byte offset; fuel suffices.
+    MISSING (hypotheses [screen] and [toks_scan]): that the printed text contains no forbidden code
+    point (it consists of source slices, doc-comment lines and ASCII), and that [scan_token], run on a
+    token's text followed by the rest of the printed text, returns that token's kind and length --
+    the boundary facts "two adjacent pieces never fuse", which need the lexical class of every
+    source-copied text. Both are exercised on every run by the correspondence (the model's re-parse
+    lexes the printed text). *)
+Theorem render_lex_partial src d r ps :
+  parse_document impl_flags impl_cfg src = POk d r -> print_pieces repaired src d = Some ps ->
+  screen impl_cfg (text_of ps) = None -> toks_scan impl_cfg ps ->
+  lex impl_cfg (text_of ps) = items_of_pieces ps.
+Proof.
+  intros H Hp Hsc Hts. apply lex_of_pieces; [exact Hsc| |exact Hts].
+  eapply print_gaps_ok; [exact (parse_wf_impl src d r H)|exact Hp].
+Qed.
+Print Assumptions render_lex_partial.
 
 (* ------------------------------------------------------------------ text level *)
 
-(** [print_parse_text] and [print_idempotent], for every document whose printed text lexes to the
-    tokens the printer meant (the instance of [render_lex] for that document): the printed text is
-    accepted by [Document::parse] (model) with a tree equal to the original up to [sn], and printing
-    that tree reproduces the text byte for byte.
-
-    FULL statement (DESIGN): the same without the [lex ... = items_of_pieces ps] hypothesis, i.e.
-    [render_lex : print_pieces repaired src d = Some ps -> lex impl_cfg (text_of ps) = items_of_pieces ps]
-    for every parsed [d]. MISSING: [render_lex] itself (that two adjacent pieces never fuse; needs the
-    class of every source-copied token text, which [LexerSound.v] does not provide either). It is
-    exercised by the correspondence on every run: the model's re-parse goes through [lex] on the text. *)
-Theorem print_roundtrip_partial src d ps :
-  wf_document src d -> print_pieces repaired src d = Some ps ->
+(** [print_parse_text] and [print_idempotent] at text level, for every parsed document whose printed
+    text lexes to the tokens the printer meant (the instance of [render_lex] for that document): the
+    printed text is accepted by [Document::parse] (model) with a tree equal to the original up to
+    [sn], and printing that tree reproduces the text byte for byte.
+    FULL statement: the same without the [lex ... = items_of_pieces ps] hypothesis.
+    MISSING: exactly what [render_lex_partial] is missing. *)
+Theorem print_roundtrip_partial src d r ps :
+  parse_document impl_flags impl_cfg src = POk d r -> print_pieces repaired src d = Some ps ->
   lex impl_cfg (text_of ps) = items_of_pieces ps ->
   RoundTrip repaired src d /\ Idempotent repaired src d.
-Proof. exact (roundtrip_of_render_lex src d ps). Qed.
+Proof. intros H. exact (roundtrip_of_render_lex src d ps (parse_wf_impl src d r H)). Qed.
 Print Assumptions print_roundtrip_partial.
 
 (** [nothing_dropped]: what [sn]-equality says construct by construct -- the package directive keeps
